@@ -13,7 +13,7 @@ from mtsa.absint import K, R, Ref, S, U, V, State
 from mtsa.index import FunctionInfo, Repo
 from mtsa.report import AnalysisError
 
-from .common import RepoInterp
+from .common import RepoInterp, block_entry
 from .tracer_model import TRACER_INLINE_STOP, corpus_points, frame_value
 
 M = "monkeytype.tracing"
@@ -160,7 +160,7 @@ def rule_blocks(ctx: Any, repo: Repo, rule: str, once_rule: Optional[str] = None
     """Every type in a trace was inferred under the limit of the block whose tracer recorded the call, and the trace goes to
     that block's logger only (so a store never holds types built under another configuration's limit); a call made while
     a block is active is logged exactly once, a call made outside every block not at all."""
-    tc = repo.fn(M, "trace_calls")
+    tc = block_entry(repo)
     ctx.functions.add(tc.fq)
     n = 0
     for what, src, limits in BLOCK_SHAPES:
